@@ -280,14 +280,28 @@ Section Kinds.
   Let PG : gpres G := gfix_pres g.
   Let PA f : apres (afix f) := afix_pres kinds G PG f.
 
+  (* The operands of the mismatches below are `atoms`: expressions of which it is known, under an invariant `Inv`
+     of the type graph that every extension keeps, that their value has a given leaf type.  Literals are atoms
+     under the trivial invariant (lit_atom below); calls of a top-level function with a monomorphic signature and
+     reads of variables declared with a leaf type are atoms under the invariant their declaration establishes
+     (Calls.v). *)
+  Variable Inv : st -> Prop.
+  Hypothesis Inv_ext : forall s s', wf s -> ext s s' -> Inv s -> Inv s'.
+  Variable atom : expr -> tyh -> Prop.
+  Hypothesis atom_rigid : forall e t, atom e t -> rigid t = true.
+  Hypothesis atom_spec : forall e t f ctx s r s',
+    atom e t -> wf s -> Inv s -> r_expr (afix f) e ctx s = Ok (r, s') -> head s' (snd r) = Some t.
+  Hypothesis atom_not_fn : forall e t, atom e t -> match e with EFunction _ _ _ _ _ _ => False | _ => True end.
+
   (* operators applied to incompatible operand types: 1 + "a", "a" - 1, 1 * 1.0, 1 < true, ... *)
   Lemma rej_arith op a b sp ta tb k f ctx s :
-    wf s -> lit_type a = Some ta -> lit_type b = Some tb -> rigid ta = true -> rigid tb = true ->
+    wf s -> Inv s -> atom a ta -> atom b tb ->
     match op with Add => k = AAdd | Sub => k = ASub | Mul => k = AMul | Greater | Less => k = ACmp | _ => False end ->
     arith_base_ok k ta tb = false ->
     notok (r_expr (afix f) (EBinOp op a b sp) ctx s).
   Proof.
-    intros W La Lb Ra Rb Hk Bk. destruct f as [|f]; [apply notok_fuel|].
+    intros W I La Lb Hk Bk. pose proof (atom_rigid _ _ La) as Ra. pose proof (atom_rigid _ _ Lb) as Rb.
+    destruct f as [|f]; [apply notok_fuel|].
     cbn [Tc.afix astep r_expr]. unfold expr_body. apply bind_notok_l.
     assert (Core : forall con,
               (forall g' s' x y, wf s' -> head s' x = Some ta -> head s' y = Some tb ->
@@ -295,9 +309,9 @@ Section Kinds.
               notok (bin_op G (afix f) sp ctx a b con s)).
     { intros con Hc. unfold bin_op.
       apply bind_cases; [apply (ap_expr _ (PA _))|assumption|]. intros [ar x] s1 H1 W1 E1.
-      destruct (lit_spec _ _ _ a _ _ _ _ _ La Ra W H1) as (_ & _ & Hx). cbn [snd] in Hx.
+      pose proof (atom_spec _ _ _ _ _ _ _ La W I H1) as Hx. cbn [snd] in Hx.
       apply bind_cases; [apply (ap_expr _ (PA _))|assumption|]. intros [br y] s2 H2 W2 E2.
-      destruct (lit_spec _ _ _ b _ _ _ _ _ Lb Rb W1 H2) as (_ & _ & Hy). cbn [snd] in Hy.
+      pose proof (atom_spec _ _ _ _ _ _ _ Lb W1 (Inv_ext _ _ W E1 I) H2) as Hy. cbn [snd] in Hy.
       pose proof (head_keep _ _ _ _ E2 Hx Ra) as Hx2.
       apply bind_cases; [apply pres_add_constraint|assumption|]. intros u3 s3 H3 W3 E3.
       destruct (add_constraint_spec _ _ _ _ _ W2 H3) as (_ & _ & Hd3 & _ & C3 & _).
@@ -320,19 +334,20 @@ Section Kinds.
 
   (* == != <=> on operands of different types *)
   Lemma rej_equ op a b sp ta tb f ctx s :
-    wf s -> lit_type a = Some ta -> lit_type b = Some tb -> rigid ta = true -> rigid tb = true ->
+    wf s -> Inv s -> atom a ta -> atom b tb ->
     match op with Equals | NotEquals | AssertEq => True | _ => False end ->
     same_shape ta tb = false ->
     notok (r_expr (afix f) (EBinOp op a b sp) ctx s).
   Proof.
-    intros W La Lb Ra Rb Hop Sh. destruct f as [|f]; [apply notok_fuel|].
+    intros W I La Lb Hop Sh. pose proof (atom_rigid _ _ La) as Ra. pose proof (atom_rigid _ _ Lb) as Rb.
+    destruct f as [|f]; [apply notok_fuel|].
     cbn [Tc.afix astep r_expr]. unfold expr_body. apply bind_notok_l.
     assert (Core : notok (bin_op_ret G (afix f) sp ctx a b CEqu HBool s)).
     { unfold bin_op_ret, bin_op. apply bind_notok_l.
       apply bind_cases; [apply (ap_expr _ (PA _))|assumption|]. intros [ar x] s1 H1 W1 E1.
-      destruct (lit_spec _ _ _ a _ _ _ _ _ La Ra W H1) as (_ & _ & Hx). cbn [snd] in Hx.
+      pose proof (atom_spec _ _ _ _ _ _ _ La W I H1) as Hx. cbn [snd] in Hx.
       apply bind_cases; [apply (ap_expr _ (PA _))|assumption|]. intros [br y] s2 H2 W2 E2.
-      destruct (lit_spec _ _ _ b _ _ _ _ _ Lb Rb W1 H2) as (_ & _ & Hy). cbn [snd] in Hy.
+      pose proof (atom_spec _ _ _ _ _ _ _ Lb W1 (Inv_ext _ _ W E1 I) H2) as Hy. cbn [snd] in Hy.
       pose proof (head_keep _ _ _ _ E2 Hx Ra) as Hx2.
       apply bind_cases; [apply pres_add_constraint|assumption|]. intros u3 s3 H3 W3 E3.
       destruct (add_constraint_spec _ _ _ _ _ W2 H3) as (_ & _ & Hd3 & _ & C3 & _).
@@ -351,13 +366,13 @@ Section Kinds.
 
   (* `not` on a non-bool *)
   Lemma rej_not a sp ta f ctx s :
-    wf s -> lit_type a = Some ta -> rigid ta = true -> same_shape ta HBool = false ->
+    wf s -> Inv s -> atom a ta -> same_shape ta HBool = false ->
     notok (r_expr (afix f) (EUniOp Not a sp) ctx s).
   Proof.
-    intros W La Ra Sh. destruct f as [|f]; [apply notok_fuel|].
+    intros W I La Sh. pose proof (atom_rigid _ _ La) as Ra. destruct f as [|f]; [apply notok_fuel|].
     cbn [Tc.afix astep r_expr]. unfold expr_body. apply bind_notok_l. cbv beta iota.
     apply bind_cases; [apply (ap_expr _ (PA _))|assumption|]. intros [ar x] s1 H1 W1 E1.
-    destruct (lit_spec _ _ _ a _ _ _ _ _ La Ra W H1) as (_ & _ & Hx). cbn [snd] in Hx.
+    pose proof (atom_spec _ _ _ _ _ _ _ La W I H1) as Hx. cbn [snd] in Hx.
     apply bind_cases; [apply pres_push|assumption|]. intros bo s2 H2 W2 E2.
     destruct (push_spec _ _ _ _ W1 H2) as (_ & _ & Hb).
     apply bind_notok_l. apply (unify_rejects g sp x bo s2 ta HBool W2); try assumption; try reflexivity.
@@ -367,14 +382,14 @@ Section Kinds.
 
   (* unary minus on a non-number (rejected wherever it stands since a470734) *)
   Lemma rej_neg a sp ta f ctx s :
-    wf s -> lit_type a = Some ta -> rigid ta = true ->
+    wf s -> Inv s -> atom a ta ->
     (match ta with HInt | HFloat => false | _ => true end) = true ->
     notok (r_expr (afix f) (EUniOp Neg a sp) ctx s).
   Proof.
-    intros W La Ra Nn. destruct f as [|f]; [apply notok_fuel|].
+    intros W I La Nn. pose proof (atom_rigid _ _ La) as Ra. destruct f as [|f]; [apply notok_fuel|].
     cbn [Tc.afix astep r_expr]. unfold expr_body. apply bind_notok_l. cbv beta iota.
     apply bind_cases; [apply (ap_expr _ (PA _))|assumption|]. intros [ar x] s1 H1 W1 E1.
-    destruct (lit_spec _ _ _ a _ _ _ _ _ La Ra W H1) as (_ & _ & Hx). cbn [snd] in Hx.
+    pose proof (atom_spec _ _ _ _ _ _ _ La W I H1) as Hx. cbn [snd] in Hx.
     apply bind_cases; [apply pres_add_constraint|assumption|]. intros u2 s2 H2 W2 E2.
     destruct (add_constraint_spec _ _ _ _ _ W1 H2) as (_ & _ & Hd2 & _ & C2 & _).
     apply bind_notok_l. apply (check_rejects g sp x CNeg s2 W2 C2).
@@ -385,11 +400,11 @@ Section Kinds.
 
   (* `and` / `or` with a non-bool operand, on either side *)
   Lemma rej_and_l op a b sp ta f ctx s :
-    wf s -> lit_type a = Some ta -> rigid ta = true -> same_shape ta HBool = false ->
+    wf s -> Inv s -> atom a ta -> same_shape ta HBool = false ->
     match op with And | Or => True | _ => False end ->
     notok (r_expr (afix f) (EBinOp op a b sp) ctx s).
   Proof.
-    intros W La Ra Sh Hop. destruct f as [|f]; [apply notok_fuel|].
+    intros W I La Sh Hop. pose proof (atom_rigid _ _ La) as Ra. destruct f as [|f]; [apply notok_fuel|].
     cbn [Tc.afix astep r_expr]. unfold expr_body. apply bind_notok_l.
     assert (Core : notok ((x <- r_expr (afix f) a ctx;;
                            (let '(a_ret, a0) := x in
@@ -399,7 +414,7 @@ Section Kinds.
                              unify G sp a0 boolean;;; unify G sp b0 boolean;;;
                              r <- unify_option G sp a_ret b_ret;; ret (r, a0)))) s)).
     { apply bind_cases; [apply (ap_expr _ (PA _))|assumption|]. intros [ar x] s1 H1 W1 E1.
-      destruct (lit_spec _ _ _ a _ _ _ _ _ La Ra W H1) as (_ & _ & Hx). cbn [snd] in Hx.
+      pose proof (atom_spec _ _ _ _ _ _ _ La W I H1) as Hx. cbn [snd] in Hx.
       apply bind_cases; [apply (ap_expr _ (PA _))|assumption|]. intros [br y] s2 H2 W2 E2.
       apply bind_cases; [apply pres_push|assumption|]. intros bo s3 H3 W3 E3.
       destruct (push_spec _ _ _ _ W2 H3) as (_ & _ & Hb).
@@ -410,11 +425,11 @@ Section Kinds.
   Qed.
 
   Lemma rej_and_r op a b sp tb f ctx s :
-    wf s -> lit_type a = Some HBool -> lit_type b = Some tb -> rigid tb = true -> same_shape tb HBool = false ->
+    wf s -> Inv s -> atom b tb -> same_shape tb HBool = false ->
     match op with And | Or => True | _ => False end ->
     notok (r_expr (afix f) (EBinOp op a b sp) ctx s).
   Proof.
-    intros W La Lb Rb Sh Hop. destruct f as [|f]; [apply notok_fuel|].
+    intros W I Lb Sh Hop. pose proof (atom_rigid _ _ Lb) as Rb. destruct f as [|f]; [apply notok_fuel|].
     cbn [Tc.afix astep r_expr]. unfold expr_body. apply bind_notok_l.
     assert (Core : notok ((x <- r_expr (afix f) a ctx;;
                            (let '(a_ret, a0) := x in
@@ -425,7 +440,7 @@ Section Kinds.
                              r <- unify_option G sp a_ret b_ret;; ret (r, a0)))) s)).
     { apply bind_cases; [apply (ap_expr _ (PA _))|assumption|]. intros [ar x] s1 H1 W1 E1.
       apply bind_cases; [apply (ap_expr _ (PA _))|assumption|]. intros [br y] s2 H2 W2 E2.
-      destruct (lit_spec _ _ _ b _ _ _ _ _ Lb Rb W1 H2) as (_ & _ & Hy). cbn [snd] in Hy.
+      pose proof (atom_spec _ _ _ _ _ _ _ Lb W1 (Inv_ext _ _ W E1 I) H2) as Hy. cbn [snd] in Hy.
       apply bind_cases; [apply pres_push|assumption|]. intros bo s3 H3 W3 E3.
       destruct (push_spec _ _ _ _ W2 H3) as (_ & _ & Hb).
       apply bind_cases; [unfold unify; apply pres_bind; [apply (gp_unify0 G PG)|intros; apply pres_ret]|assumption|].
@@ -439,27 +454,27 @@ Section Kinds.
 
   (* calling something that is not a function *)
   Lemma rej_call_nonfn a args sp ta f ctx s :
-    wf s -> lit_type a = Some ta -> rigid ta = true ->
+    wf s -> Inv s -> atom a ta ->
     notok (r_expr (afix f) (ECall a args sp) ctx s).
   Proof.
-    intros W La Ra. destruct f as [|f]; [apply notok_fuel|].
+    intros W I La. pose proof (atom_rigid _ _ La) as Ra. destruct f as [|f]; [apply notok_fuel|].
     cbn [Tc.afix astep r_expr]. unfold expr_body. apply bind_notok_l. cbv beta iota.
     apply bind_cases; [apply (ap_expr _ (PA _))|assumption|]. intros [ar x] s1 H1 W1 E1.
-    destruct (lit_spec _ _ _ a _ _ _ _ _ La Ra W H1) as (_ & _ & Hx). cbn [snd] in Hx.
+    pose proof (atom_spec _ _ _ _ _ _ _ La W I H1) as Hx. cbn [snd] in Hx.
     rewrite (bind_ok _ _ _ _ _ (find_type_ok _ _ _ Hx)).
     destruct ta; try discriminate; apply notok_fail.
   Qed.
 
   (* a condition that is not a bool: if-expression / if-statement *)
   Lemma rej_if_cond c body bsp rest sp tc f ctx s :
-    wf s -> lit_type c = Some tc -> rigid tc = true -> same_shape HBool tc = false ->
+    wf s -> Inv s -> atom c tc -> same_shape HBool tc = false ->
     notok (r_expr (afix f) (EIf (IfBranch (Some c) body bsp :: rest) sp) ctx s).
   Proof.
-    intros W Lc Rc Sh. destruct f as [|f]; [apply notok_fuel|].
+    intros W I Lc Sh. pose proof (atom_rigid _ _ Lc) as Rc. destruct f as [|f]; [apply notok_fuel|].
     cbn [Tc.afix astep r_expr]. unfold expr_body. apply bind_notok_l. cbv beta iota.
     apply bind_notok_l. cbn [mapM]. apply bind_notok_l. unfold if_branch. apply bind_notok_l.
     apply bind_cases; [apply (ap_expr _ (PA _))|assumption|]. intros [cr x] s1 H1 W1 E1.
-    destruct (lit_spec _ _ _ c _ _ _ _ _ Lc Rc W H1) as (_ & _ & Hx). cbn [snd] in Hx.
+    pose proof (atom_spec _ _ _ _ _ _ _ Lc W I H1) as Hx. cbn [snd] in Hx.
     apply bind_cases; [apply pres_push|assumption|]. intros bo s2 H2 W2 E2.
     destruct (push_spec _ _ _ _ W1 H2) as (_ & _ & Hb).
     apply bind_notok_l. apply (unify_rejects g _ bo x s2 HBool tc W2); try assumption; try reflexivity.
@@ -469,13 +484,13 @@ Section Kinds.
 
   (* loop condition *)
   Lemma rej_loop_cond c body sp tc f ctx s :
-    wf s -> lit_type c = Some tc -> rigid tc = true -> same_shape HBool tc = false ->
+    wf s -> Inv s -> atom c tc -> same_shape HBool tc = false ->
     notok (r_stmt (afix f) (SLoop c body sp) ctx s).
   Proof.
-    intros W Lc Rc Sh. destruct f as [|f]; [apply notok_fuel|].
+    intros W I Lc Sh. pose proof (atom_rigid _ _ Lc) as Rc. destruct f as [|f]; [apply notok_fuel|].
     cbn [Tc.afix astep r_stmt]. unfold stmt_body.
     apply bind_cases; [apply (ap_expr _ (PA _))|assumption|]. intros [cr x] s1 H1 W1 E1.
-    destruct (lit_spec _ _ _ c _ _ _ _ _ Lc Rc W H1) as (_ & _ & Hx). cbn [snd] in Hx.
+    pose proof (atom_spec _ _ _ _ _ _ _ Lc W I H1) as Hx. cbn [snd] in Hx.
     apply bind_cases; [apply pres_push|assumption|]. intros bo s2 H2 W2 E2.
     destruct (push_spec _ _ _ _ W1 H2) as (_ & _ & Hb).
     apply bind_notok_l. apply (unify_rejects g _ bo x s2 HBool tc W2); try assumption; try reflexivity.
@@ -485,11 +500,12 @@ Section Kinds.
 
   (* a heterogeneous list *)
   Lemma rej_hetero_list a b rest sp ta tb f ctx s :
-    wf s -> lit_type a = Some ta -> lit_type b = Some tb -> rigid ta = true -> rigid tb = true ->
+    wf s -> Inv s -> atom a ta -> atom b tb ->
     same_shape ta tb = false ->
     notok (r_expr (afix f) (ECollection CList (a :: b :: rest) sp) ctx s).
   Proof.
-    intros W La Lb Ra Rb Sh. destruct f as [|f]; [apply notok_fuel|].
+    intros W I La Lb Sh. pose proof (atom_rigid _ _ La) as Ra. pose proof (atom_rigid _ _ Lb) as Rb.
+    destruct f as [|f]; [apply notok_fuel|].
     cbn [Tc.afix astep r_expr]. unfold expr_body. apply bind_notok_l. cbv beta iota.
     apply bind_cases; [apply pres_push|assumption|]. intros inner s1 H1 W1 E1.
     apply bind_cases; [apply pres_push|assumption|]. intros ret0 s2 H2 W2 E2.
@@ -497,7 +513,9 @@ Section Kinds.
     (* first element *)
     apply bind_cases; [prs; try apply (ap_expr _ (PA _)); try apply (gp_unify0 G PG)|assumption|]. intros u3 s3 H3 W3 E3.
     apply bind_inv in H3 as ([ar x] & s31 & Hx1 & H3).
-    destruct (lit_spec _ _ _ a _ _ _ _ _ La Ra W2 Hx1) as (W31 & E31 & Hx). cbn [snd] in Hx.
+    destruct (ap_expr _ (PA _) _ _ _ _ _ W2 Hx1) as [W31 E31].
+    assert (I2 : Inv s2) by (eapply Inv_ext; [exact W| |exact I]; eapply ext_trans; eassumption).
+    pose proof (atom_spec _ _ _ _ _ _ _ La W2 I2 Hx1) as Hx. cbn [snd] in Hx.
     apply bind_inv in H3 as (u32 & s32 & Hu & H3).
     destruct (unify_ok_heads _ _ _ _ _ _ _ W31 Hu) as (W32 & E32 & Heq).
     assert (E323 : ext s32 s3).
@@ -513,7 +531,7 @@ Section Kinds.
     (* second element *)
     apply bind_notok_l.
     apply bind_cases; [apply (ap_expr _ (PA _))|assumption|]. intros [br y] s4 H4 W4 E4.
-    destruct (lit_spec _ _ _ b _ _ _ _ _ Lb Rb W3 H4) as (_ & _ & Hy). cbn [snd] in Hy.
+    pose proof (atom_spec _ _ _ _ _ _ _ Lb W3 (Inv_ext _ _ W2 E3 I2) H4) as Hy. cbn [snd] in Hy.
     apply bind_notok_l. apply (unify_rejects g sp inner y s4 ta tb W4); try assumption.
     - eapply head_keep; eassumption.
     - now apply rigid_known.
@@ -528,15 +546,16 @@ Section Kinds.
     end.
 
   Lemma rej_var_type name var kind b tsp value sp tv f ctx s :
-    wf s -> lit_type value = Some tv -> rigid tv = true -> rigid (base_head b) = true ->
+    wf s -> Inv s -> atom value tv -> rigid (base_head b) = true ->
     same_shape (base_head b) tv = false ->
     notok (r_stmt (afix f) (SDefinition name var kind (TResolved b tsp) value sp) ctx s).
   Proof.
-    intros W Lv Rv Rb Sh. destruct f as [|f]; [apply notok_fuel|].
+    intros W I Lv Rb Sh. pose proof (atom_rigid _ _ Lv) as Rv. pose proof (atom_not_fn _ _ Lv) as Nf.
+    destruct f as [|f]; [apply notok_fuel|].
     cbn [Tc.afix astep r_stmt]. unfold stmt_body, definition.
     destruct (inside_pure ctx && negb (immutable kind)); [apply notok_fail|].
     apply bind_cases; [apply pres_var_ty|assumption|]. intros vt s0 H0 W0 E0.
-    destruct value; try discriminate Lv.
+    destruct value; try contradiction.
     all: cbv beta iota; rewrite (bind_ok (ret tt) _ s0 tt s0 eq_refl).
     all: apply bind_cases; [eapply pres_resolve_type, PA|assumption|]; intros dt s2 H2 W2 E2.
     all: assert (Hdt : head s2 dt = Some (base_head b)).
@@ -552,8 +571,10 @@ Section Kinds.
     all: assert (Hvt : head s4 vt = Some (base_head b))
       by (rewrite Heq; apply (head_keep s3 s4 dt _ E4); [rewrite Hd3; assumption|assumption]).
     all: apply bind_cases; [apply (ap_expr _ (PA _))|assumption|]; intros [vr v] s5 H5 W5 E5.
-    all: match type of H5 with r_expr _ ?e _ _ = _ =>
-           destruct (lit_spec _ _ _ e _ _ _ _ _ Lv Rv W4 H5) as (_ & _ & Hv) end; cbn [snd] in Hv.
+    all: assert (I4 : Inv s4)
+      by (eapply Inv_ext; [exact W| |exact I]; eapply ext_trans; [exact E0|]; eapply ext_trans; [exact E2|];
+          eapply ext_trans; [exact E3|exact E4]).
+    all: pose proof (atom_spec _ _ _ _ _ _ _ Lv W4 I4 H5) as Hv; cbn [snd] in Hv.
     all: apply bind_notok_l; apply (unify_rejects g sp vt v s5 (base_head b) tv W5); try assumption;
       [eapply head_keep; eassumption|now apply rigid_known|now apply rigid_known].
   Qed.
@@ -797,84 +818,129 @@ Definition arith_of (op : binop) : option arithk :=
   | _ => None
   end.
 
-Inductive bad_expr : expr -> Prop :=
-(* an arithmetic or ordering operator applied to literals of incompatible types: 1 + "a", "a" - "b", 1 * 1.0, 1 < true *)
+(* literals are atoms, under no assumption about the state *)
+Definition lit_atom (e : expr) (t : tyh) : Prop := lit_type e = Some t /\ rigid t = true.
+
+Lemma lit_atom_spec kinds g e t f ctx s r s' :
+  lit_atom e t -> wf s -> True -> r_expr (afix kinds (gfix g) f) e ctx s = Ok (r, s') -> head s' (snd r) = Some t.
+Proof. intros [L R] W _ H. exact (proj2 (proj2 (lit_spec _ _ _ _ _ _ _ _ _ L R W H))). Qed.
+
+Lemma lit_atom_not_fn e t : lit_atom e t -> match e with EFunction _ _ _ _ _ _ => False | _ => True end.
+Proof. intros [L _]. destruct e; try exact I. discriminate. Qed.
+
+Inductive bad_expr_g (atom : expr -> tyh -> Prop) : expr -> Prop :=
+(* an arithmetic or ordering operator applied to atoms of incompatible types: 1 + "a", "a" - "b", 1 * 1.0, 1 < true *)
 | BadArith op a b sp ta tb k :
-    lit_type a = Some ta -> lit_type b = Some tb -> rigid ta = true -> rigid tb = true ->
-    arith_of op = Some k -> arith_base_ok k ta tb = false -> bad_expr (EBinOp op a b sp)
+    atom a ta -> atom b tb ->
+    arith_of op = Some k -> arith_base_ok k ta tb = false -> bad_expr_g atom (EBinOp op a b sp)
 (* == != <=> between different types: 1 == 1.0 *)
 | BadEqu op a b sp ta tb :
-    lit_type a = Some ta -> lit_type b = Some tb -> rigid ta = true -> rigid tb = true ->
-    (op = Equals \/ op = NotEquals \/ op = AssertEq) -> same_shape ta tb = false -> bad_expr (EBinOp op a b sp)
+    atom a ta -> atom b tb ->
+    (op = Equals \/ op = NotEquals \/ op = AssertEq) -> same_shape ta tb = false -> bad_expr_g atom (EBinOp op a b sp)
 (* not 1 *)
-| BadNot a sp ta : lit_type a = Some ta -> rigid ta = true -> same_shape ta HBool = false -> bad_expr (EUniOp Not a sp)
+| BadNot a sp ta : atom a ta -> same_shape ta HBool = false -> bad_expr_g atom (EUniOp Not a sp)
 (* -"abc" *)
-| BadNeg a sp ta : lit_type a = Some ta -> rigid ta = true ->
-    (match ta with HInt | HFloat => false | _ => true end) = true -> bad_expr (EUniOp Neg a sp)
+| BadNeg a sp ta : atom a ta ->
+    (match ta with HInt | HFloat => false | _ => true end) = true -> bad_expr_g atom (EUniOp Neg a sp)
 (* 1 and b, b or "x" *)
-| BadAndL op a b sp ta : lit_type a = Some ta -> rigid ta = true -> same_shape ta HBool = false ->
-    (op = And \/ op = Or) -> bad_expr (EBinOp op a b sp)
-| BadAndR op a b sp tb : lit_type a = Some HBool -> lit_type b = Some tb -> rigid tb = true ->
-    same_shape tb HBool = false -> (op = And \/ op = Or) -> bad_expr (EBinOp op a b sp)
+| BadAndL op a b sp ta : atom a ta -> same_shape ta HBool = false ->
+    (op = And \/ op = Or) -> bad_expr_g atom (EBinOp op a b sp)
+| BadAndR op a b sp tb : atom b tb ->
+    same_shape tb HBool = false -> (op = And \/ op = Or) -> bad_expr_g atom (EBinOp op a b sp)
 (* 1(args) *)
-| BadCallNonFn a args sp ta : lit_type a = Some ta -> rigid ta = true -> bad_expr (ECall a args sp)
+| BadCallNonFn a args sp ta : atom a ta -> bad_expr_g atom (ECall a args sp)
 (* if 1 do .. *)
-| BadIfCond c body bsp rest sp tc : lit_type c = Some tc -> rigid tc = true -> same_shape HBool tc = false ->
-    bad_expr (EIf (IfBranch (Some c) body bsp :: rest) sp)
+| BadIfCond c body bsp rest sp tc : atom c tc -> same_shape HBool tc = false ->
+    bad_expr_g atom (EIf (IfBranch (Some c) body bsp :: rest) sp)
 (* [1, "a", ..] *)
 | BadHeteroList a b rest sp ta tb :
-    lit_type a = Some ta -> lit_type b = Some tb -> rigid ta = true -> rigid tb = true ->
-    same_shape ta tb = false -> bad_expr (ECollection CList (a :: b :: rest) sp)
+    atom a ta -> atom b tb ->
+    same_shape ta tb = false -> bad_expr_g atom (ECollection CList (a :: b :: rest) sp)
 (* a call of a function expression with the wrong number of arguments: (fn a, b do .. end)(1) *)
 | BadArity name params rty body pure fsp args sp :
-    length args <> length params -> bad_expr (ECall (EFunction name params rty body pure fsp) args sp)
+    length args <> length params -> bad_expr_g atom (ECall (EFunction name params rty body pure fsp) args sp)
 (* a returned value contradicting the declared return type: fn .. -> int do ret "a" end *)
 | BadRetType name params b tsp value rsp pure fsp tv :
     lit_type value = Some tv -> rigid tv = true -> rigid (base_head b) = true -> same_shape (base_head b) tv = false ->
-    bad_expr (EFunction name params (TResolved b tsp) [SRet (Some value) rsp] pure fsp).
+    bad_expr_g atom (EFunction name params (TResolved b tsp) [SRet (Some value) rsp] pure fsp).
 
-Inductive bad_stmt : stmt -> Prop :=
-| BadExprStmt e sp : bad_expr e -> bad_stmt (SStatementExpression e sp)
+Inductive bad_stmt_g (atom : expr -> tyh -> Prop) : stmt -> Prop :=
+| BadExprStmt e sp : bad_expr_g atom e -> bad_stmt_g atom (SStatementExpression e sp)
 (* loop 1 do .. *)
-| BadLoopCond c body sp tc : lit_type c = Some tc -> rigid tc = true -> same_shape HBool tc = false ->
-    bad_stmt (SLoop c body sp)
+| BadLoopCond c body sp tc : atom c tc -> same_shape HBool tc = false ->
+    bad_stmt_g atom (SLoop c body sp)
 (* x: int = "a" *)
 | BadVarType name var kind b tsp value sp tv :
-    lit_type value = Some tv -> rigid tv = true -> rigid (base_head b) = true ->
-    same_shape (base_head b) tv = false -> bad_stmt (SDefinition name var kind (TResolved b tsp) value sp)
+    atom value tv -> rigid (base_head b) = true ->
+    same_shape (base_head b) tv = false -> bad_stmt_g atom (SDefinition name var kind (TResolved b tsp) value sp)
 (* x := true ; x += x  (a compound assignment on a type without that operator, the same variable on both sides) *)
 | BadCompoundSelf name v dk tsp lit dsp op k r1 r2 asp bsp tl :
     lit_type lit = Some tl -> rigid tl = true ->
     (op = Add /\ k = AAdd) \/ (op = Sub /\ k = ASub) \/ (op = Mul /\ k = AMul) ->
     arith_base_ok k tl tl = false ->
-    bad_stmt (SBlock [SDefinition name v dk (TImplied tsp) lit dsp; SAssignment op (ERead v r1) (ERead v r2) asp] bsp).
+    bad_stmt_g atom (SBlock [SDefinition name v dk (TImplied tsp) lit dsp; SAssignment op (ERead v r1) (ERead v r2) asp] bsp).
+
+(* the mismatch kinds over any notion of atom that is sound under an extension-closed invariant *)
+Section Generic.
+  Variable kinds : PositiveMap.t varkind.
+  Variable g : nat.
+  Variable Inv : st -> Prop.
+  Hypothesis Inv_ext : forall s s', wf s -> ext s s' -> Inv s -> Inv s'.
+  Variable atom : expr -> tyh -> Prop.
+  Hypothesis atom_rigid : forall e t, atom e t -> rigid t = true.
+  Hypothesis atom_spec : forall e t f ctx s r s',
+    atom e t -> wf s -> Inv s -> r_expr (afix kinds (gfix g) f) e ctx s = Ok (r, s') -> head s' (snd r) = Some t.
+  Hypothesis atom_not_fn : forall e t, atom e t -> match e with EFunction _ _ _ _ _ _ => False | _ => True end.
+
+  Theorem bad_expr_g_rejected e : bad_expr_g atom e ->
+    forall f ctx s, wf s -> Inv s -> notok (r_expr (afix kinds (gfix g) f) e ctx s).
+  Proof.
+    intros B f ctx s W HI. destruct B.
+    - eapply (rej_arith kinds g Inv Inv_ext atom atom_rigid atom_spec); try eassumption.
+      destruct op; try discriminate; cbn in *; congruence.
+    - eapply (rej_equ kinds g Inv Inv_ext atom atom_rigid atom_spec); try eassumption.
+      destruct H1 as [H1|[H1|H1]]; subst op; exact I.
+    - eapply (rej_not kinds g Inv atom atom_rigid atom_spec); eassumption.
+    - eapply (rej_neg kinds g Inv atom atom_rigid atom_spec); eassumption.
+    - eapply (rej_and_l kinds g Inv atom atom_rigid atom_spec); try eassumption. destruct H1 as [H1|H1]; subst op; exact I.
+    - eapply (rej_and_r kinds g Inv Inv_ext atom atom_rigid atom_spec); try eassumption. destruct H1 as [H1|H1]; subst op; exact I.
+    - eapply (rej_call_nonfn kinds g Inv atom atom_rigid atom_spec); eassumption.
+    - eapply (rej_if_cond kinds g Inv atom atom_rigid atom_spec); eassumption.
+    - eapply (rej_hetero_list kinds g Inv Inv_ext atom atom_rigid atom_spec); eassumption.
+    - eapply rej_arity; eassumption.
+    - eapply rej_ret_type; eassumption.
+  Qed.
+
+  Theorem bad_stmt_g_rejected st : bad_stmt_g atom st ->
+    forall f ctx s, wf s -> Inv s -> notok (r_stmt (afix kinds (gfix g) f) st ctx s).
+  Proof.
+    intros B f ctx s W HI. destruct B.
+    - destruct f as [|f]; [apply notok_fuel|]. cbn [afix astep r_stmt]. unfold stmt_body.
+      apply bind_notok_l. now apply bad_expr_g_rejected.
+    - eapply (rej_loop_cond kinds g Inv atom atom_rigid atom_spec); eassumption.
+    - eapply (rej_var_type kinds g Inv Inv_ext atom atom_rigid atom_spec atom_not_fn); eassumption.
+    - eapply rej_compound_self; eassumption.
+  Qed.
+End Generic.
+
+(* the literal instance *)
+Notation bad_expr := (bad_expr_g lit_atom).
+Notation bad_stmt := (bad_stmt_g lit_atom).
 
 Theorem bad_expr_rejected e : bad_expr e ->
   forall kinds g f ctx s, wf s -> notok (r_expr (afix kinds (gfix g) f) e ctx s).
 Proof.
-  intros B kinds g f ctx s W. destruct B.
-  - eapply rej_arith; try eassumption. destruct op; try discriminate; cbn in *; congruence.
-  - eapply rej_equ; try eassumption. destruct H3 as [H3|[H3|H3]]; subst op; exact I.
-  - eapply rej_not; eassumption.
-  - eapply rej_neg; eassumption.
-  - eapply rej_and_l; try eassumption. destruct H2 as [H2|H2]; subst op; exact I.
-  - eapply rej_and_r; try eassumption. destruct H3 as [H3|H3]; subst op; exact I.
-  - eapply rej_call_nonfn; eassumption.
-  - eapply rej_if_cond; eassumption.
-  - eapply rej_hetero_list; eassumption.
-  - eapply rej_arity; eassumption.
-  - eapply rej_ret_type; eassumption.
+  intros B kinds g f ctx s W.
+  apply (bad_expr_g_rejected kinds g (fun _ => True) (fun _ _ _ _ _ => I) lit_atom (fun e t H => proj2 H)
+           (lit_atom_spec kinds g) e B f ctx s W I).
 Qed.
 
 Theorem bad_stmt_rejected st : bad_stmt st ->
   forall kinds g f ctx s, wf s -> notok (r_stmt (afix kinds (gfix g) f) st ctx s).
 Proof.
-  intros B kinds g f ctx s W. destruct B.
-  - destruct f as [|f]; [apply notok_fuel|]. cbn [afix astep r_stmt]. unfold stmt_body.
-    apply bind_notok_l. now apply bad_expr_rejected.
-  - eapply rej_loop_cond; eassumption.
-  - eapply rej_var_type; eassumption.
-  - eapply rej_compound_self; eassumption.
+  intros B kinds g f ctx s W.
+  apply (bad_stmt_g_rejected kinds g (fun _ => True) (fun _ _ _ _ _ => I) lit_atom (fun e t H => proj2 H)
+           (lit_atom_spec kinds g) lit_atom_not_fn st B f ctx s W I).
 Qed.
 
 Theorem bad_stmt_rejected_top st : bad_stmt st ->
